@@ -211,7 +211,7 @@ def build_harness(variant='release'):
                 break
         toml = ('[package]\nname = "slac_harness"\nversion = "0.1.0"\nedition = "2021"\n[workspace]\n[features]\n'
                 'zero_based_strings = ["slac/zero_based_strings"]\n[dependencies]\n'
-                'serde_json = { version = "1.0", features = ["float_roundtrip"] }\nregex-lite = "0.1"\n'
+                'serde_json = { version = "1.0", features = ["float_roundtrip"] }\nregex-lite = "0.1"\nchrono = "0.4"\n'
                 f'slac = {{ path = "{REPO}" }}\n[profile.dev]\noverflow-checks = true\ndebug = 0\nopt-level = 1\n[profile.release]\noverflow-checks = false\n')
         tp = os.path.join(d, 'Cargo.toml')
         if not os.path.exists(tp) or open(tp).read() != toml:
